@@ -455,6 +455,111 @@ def degenerate_cases():
     return out
 
 
+def _head_len(n):
+    return 1 if n < 24 else 2 if n < 256 else 3 if n < 65536 else 5 if n < (1 << 32) else 9
+
+
+class EncSim:
+    """bookkeeping of the encoder buffer as documented (initial capacity 256; a write reserving r bytes at length len grows
+    the capacity to max(len + r, 2 * capacity) when len + r exceeds it) - used only to AIM cases at an exact free space"""
+
+    def __init__(self):
+        self.len, self.cap, self.ops = 0, 256, []
+
+    def _reserve(self, r):
+        if self.len + r > self.cap:
+            self.cap = max(self.len + r, 2 * self.cap)
+
+    def string(self, n, text=False, byte=0x41):
+        self._reserve(9 + n)
+        self.len += _head_len(n) + n
+        self.ops.append(f"{'textr' if text else 'bytesr'} {byte:02x} {n}")
+
+    def null(self):
+        self._reserve(1)
+        self.len += 1
+        self.ops.append("null")
+
+    def reset(self):
+        self.len = 0
+        self.ops.append("reset")
+
+    def fill_to(self, f):
+        """bring the length to exactly f without growing the buffer"""
+        assert self.len <= f <= self.cap
+        while f - self.len > 12:
+            room = self.cap - self.len - 9              # largest string whose reservation does not grow the buffer
+            want = f - self.len
+            n = min(room, want - 1)
+            while n > 0 and _head_len(n) + n > want:
+                n -= 1
+            if n <= 0:
+                break
+            before = self.cap
+            self.string(n, byte=0x2e)
+            assert self.cap == before and self.len <= f, (self.len, f, self.cap)
+        while self.len < f:
+            before = self.cap
+            self.null()
+            assert self.cap == before
+
+
+def growth_sweep_cases(cap, lengths):
+    """double boundary head width x free space: a string of each given length written at EVERY fill level 0..capacity of a
+    buffer of exactly `cap` bytes, followed by a sentinel"""
+    out = []
+    for L in lengths:
+        for f in range(0, cap + 1):
+            sim = EncSim()
+            if cap > 256:
+                # one write whose reservation is exactly `cap` (> 256, <= 512 or larger): capacity becomes max(cap, 512)
+                sim.string(cap - 9, byte=0x00)
+                assert sim.cap == cap, (sim.cap, cap)
+                sim.reset()
+            sim.fill_to(f)
+            assert sim.len == f and sim.cap == cap
+            sim.string(L, text=(L + f) % 2 == 0, byte=0x61 + (f % 20))
+            out.append(Case(sim.ops + ["u 7", "enc", "decode_all"], {"kind": "sweep", "cap": cap, "fill": f, "L": L}))
+    return out
+
+
+def big_edge_cases(lengths, deltas, cap=200009):
+    """strings around the 16-bit head boundary written when the free space is (head + length + delta) bytes"""
+    out = []
+    for L in lengths:
+        for d in deltas:
+            sim = EncSim()
+            sim.string(cap - 9, byte=0x00)
+            assert sim.cap == cap
+            sim.reset()
+            free = _head_len(L) + L + d
+            sim.fill_to(cap - free)
+            sim.string(L, text=True, byte=0x7a)
+            out.append(Case(sim.ops + ["null", "enc", "decode_all"], {"kind": "sweep", "cap": cap, "L": L, "delta": d}))
+    return out
+
+
+MIB = 1 << 20
+
+
+def huge_cases(tier):
+    """long histories: encoder buffers grown past 1 / 4 / 16 MiB, then strings of 1-8 MiB, some larger than the free room
+    plus 1 MiB, some not (`bigmode`: digest instead of bytes)"""
+    plans = [[700000, 700000, 1500000], [700000, 700000, 900000, 5], [1100000, 3 * MIB + 17]]
+    if tier == "quick":
+        plans += [[3 * MIB, 3 * MIB, 8 * MIB]]
+    else:
+        plans += [[3 * MIB, 3 * MIB, 8 * MIB], [5 * MIB, 2 * MIB, MIB + 1, 4 * MIB], [9 * MIB, 9 * MIB, 8 * MIB, 1 * MIB],
+                  [17 * MIB, 2 * MIB + 3, 6 * MIB]]
+    out = []
+    for pl in plans:
+        ops = ["bigmode"]
+        for i, n in enumerate(pl):
+            ops += [f"{'textr' if i % 2 else 'bytesr'} {0x30 + i:02x} {n}", "u 7", "enc"]
+        out.append(Case(ops, {"kind": "huge"}))
+    return out
+
+
 def case_bigstr(rng):
     n = rng.choice([65535, 65536, 65537, 131072])
     ops = [f"textr 61 {n}", "u 1", f"bytesr 00 {n - rng.randint(0, 2)}", "enc", "decode_all", "load", "consume", "consume", "consume", "rem"]
@@ -577,6 +682,13 @@ def gen_cases(rng, tier):
     for _ in range(400 if q else 12000):
         cases.append(case_map_keys(rng))
     cases += degenerate_cases()
+    small = [22, 23, 24, 25, 26, 254, 255, 256, 257, 258]
+    cases += growth_sweep_cases(256, small)
+    cases += growth_sweep_cases(512, small)
+    if not q:
+        cases += growth_sweep_cases(1000, [24, 256])
+    cases += big_edge_cases([65535, 65536] if q else [65534, 65535, 65536, 65537, 65538], [0, 1, 4, 5] if q else [-1, 0, 1, 2, 3, 4, 5, 6, 8, 9, 10])
+    cases += huge_cases(tier)
     for _ in range(40 if q else 1500):
         cases.append(case_growth_edge(rng))
     for _ in range(3 if q else 40):
@@ -746,6 +858,8 @@ def _split_item(line):
 
 def oracle(case, lines):
     errs = []
+    if case.ops and case.ops[0] != "bigmode" and any(o.startswith(("textr ", "bytesr ")) and int(o.split()[2]) >= 500000 for o in case.ops):
+        return []     # multi-MiB strings are only driven in digest mode (keeps the minimiser from dropping `bigmode`)
     li = 0
 
     def nxt():
@@ -754,6 +868,7 @@ def oracle(case, lines):
         li += 1
         return l
 
+    big = False
     written = []       # items asked of the encoder since the last reset
     enc = None         # bytes the implementation reported (W enc)
     elems = None       # reference parse of enc (flat)
@@ -824,6 +939,27 @@ def oracle(case, lines):
             continue
         if op == "reset":
             written = []
+            continue
+        if op == "bigmode":
+            big = True
+            continue
+        if op == "enc" and big:
+            l = nxt()
+            nxt()   # W cap
+            if l is None or not l.startswith("W encsum len="):
+                errs.append(f"enc (bigmode): unexpected line {l}"); break
+            got = int(l.split("len=")[1].split()[0])
+            want = 0
+            for kind, val in written:
+                if kind in ("bytes", "text"):
+                    want += _head_len(len(val)) + len(val)
+                elif kind in ("uint", "negint", "array", "map", "tag"):
+                    want += _head_len(val)
+                else:
+                    want = None
+                    break
+            if want is not None and got != want:
+                errs.append(f"encoder output is {got} bytes, the {len(written)} items written need {want} (an item or its payload is missing)")
             continue
         if op == "enc":
             l = nxt()
